@@ -103,3 +103,38 @@ def model_values(model, names, ebits, sbits):
             mm = re.search(r"else -> ([^\],]+)", v)
             out[n] = parse_fp(mm.group(1) if mm else v, ebits, sbits)
     return out
+
+
+def mul_mod_hints(ds, G):
+    """Instances of the arithmetic lemma `mul_mod_of_mod` (lemmas/Arith.lean): g | b -> g | a*b, for every way of
+    splitting numel(ds) into (one dimension) x (product of the others).  True facts of arithmetic handed to the SMT
+    solvers as hints because z3/cvc5 do not find them (nonlinear mod)."""
+    from .values import numel_of
+
+    out = []
+    numel = zi(numel_of(ds))
+    for k in range(len(ds)):
+        others = [d for j, d in enumerate(ds) if j != k]
+        if not others:
+            continue
+        n = zi(numel_of(others))
+        out.append(z3.Implies(z3.And(G > 0, n % G == 0), z3.And(numel % G == 0, numel / G == zi(ds[k]) * (n / G), (n / G) * G == n)))
+    return out
+
+
+def lean_lemmas(run, names):
+    """Lean/Mathlib lemmas used as hints: compiled in the thorough tier (an obligation discharged by `lean`), listed as
+    assumptions in the quick tier."""
+    import os
+    import subprocess
+    import time
+
+    path = os.path.join(os.path.dirname(os.path.dirname(os.path.abspath(__file__))), "lemmas", "Arith.lean")
+    if run.tier != "thorough":
+        run.assumptions.append("arithmetic lemmas " + ", ".join(names) + " (lemmas/Arith.lean, Lean 4 + Mathlib): compiled in the thorough tier only")
+        return
+    t0 = time.time()
+    p = subprocess.run(["lean", path], capture_output=True, text=True, cwd=os.path.dirname(path))
+    ok = p.returncode == 0 and "error" not in p.stdout
+    run.add("lean:lemmas/Arith.lean(" + ",".join(names) + ")", [], z3.BoolVal(ok), "side", {"backend": "lean", "time_s": round(time.time() - t0, 1)},
+            {"stdout": p.stdout[-500:]})
